@@ -966,6 +966,19 @@ def wl_suspend(signals: int = 1) -> Workflow:
     return workflow([stage("a"), stage("w", ["a"], tasks={"t1": {"kind": "suspend", "signals": signals}}), stage("z", ["w"])])
 
 
+def wl_loop_suspend() -> Workflow:
+    """a (jumps back to itself once) -> w (suspends until signalled) -> z: a signal that arrives early is
+    buffered on w while the loop upstream of it re-arms w."""
+    return workflow([stage("a", tasks={"t1": {"kind": "jump", "target": "a", "times": 1}}), stage("w", ["a"], tasks={"t1": {"kind": "suspend", "signals": 1}}), stage("z", ["w"])])
+
+
+def wl_suspend_in_loop() -> Workflow:
+    """t -> w (suspends until signalled) -> x (jumps back to t once) -> z: the gate is passed once per signal,
+    also in the second iteration."""
+    return workflow([stage("t"), stage("w", ["t"], tasks={"t1": {"kind": "suspend", "signals": 1}}),
+                     stage("x", ["w"], tasks={"t1": {"kind": "jump", "target": "t", "times": 1}}), stage("z", ["x"])])
+
+
 def wl_mutex() -> Workflow:
     return workflow(
         [stage("r"), stage("m1", ["r"], mutex_key="k"), stage("m2", ["r"], mutex_key="k"), stage("z", ["m1", "m2"])]
@@ -1059,6 +1072,8 @@ WORKLOADS: dict[str, Callable[[], Workflow]] = {
     "joinjump": wl_joinjump,
     "suspend": wl_suspend,
     "suspend2": lambda: wl_suspend(signals=2),
+    "loop_suspend": wl_loop_suspend,
+    "suspend_in_loop": wl_suspend_in_loop,
     "mutex": wl_mutex,
     "choice": wl_choice,
     "fwdjump_t2": lambda: wl_forward_jump(extra_task=True),
